@@ -95,7 +95,7 @@ def quantile_score(y_tau, y_test, taus):
         ValueError
             If the shapes of `y_tau`, `y_test` and `taus` are inconsistent.
     """
-    taus = np.asarray(taus)
+    taus = np.ravel(taus)
     m = taus.size
 
     if y_tau.ndim > 1 and np.prod(y_tau.shape[1:]) != m:
